@@ -40,7 +40,17 @@ def sense_buf(rng):
         b[7] = 10
         b[12], b[13] = asc, ascq
         b[15:18] = rng.getrandbits(24).to_bytes(3, "big")
-        return b[:rng.choice([18, 18, 18, 14, 8])]
+        how = rng.randrange(8)
+        if how < 3:
+            return b
+        if how < 5:
+            return b[:rng.choice([14, 8])]          # cut short by the transport, ADDITIONAL SENSE LENGTH still 10
+        # a target that sends less than 18 bytes and says so: ADDITIONAL SENSE LENGTH = n - 7 (ASCQ or ASC is the
+        # last byte), as sent or inside the transport's larger zero-filled sense buffer
+        n = rng.choice([13, 14, 15, 16, 17])
+        b = b[:n]
+        b[7] = n - 8
+        return b + bytearray(rng.choice([0, 0, 32 - n, 96 - n]))
     body = bytearray()
     for ty in rng.sample(sorted(DESC_LEN), rng.choice([0, 1, 1, 2, 3])):
         body += bytes([ty, DESC_LEN[ty]]) + bytes(rng.getrandbits(8) for _ in range(DESC_LEN[ty]))
@@ -144,6 +154,13 @@ def run(res, tier, build_ok):
             b = bytearray(18)
             b[0], b[2], b[7], b[12], b[13] = rc, key, 10, rng.getrandbits(8), rng.getrandbits(8)
             shapes.append(b)
+            for n in (13, 14):
+                for pad in (0, 32 - n):
+                    b = bytearray(n)
+                    b[0], b[2], b[7], b[12] = rc, key, n - 8, 1 + rng.randrange(255)
+                    if n > 13:
+                        b[13] = 1 + rng.randrange(255)
+                    shapes.append(b + bytearray(pad))
     for sense in shapes:
         for raw in (False, True):
             for kind, dev in (("sgio", sdev), ("iscsi", idev)):
